@@ -353,7 +353,13 @@ def _run_pretty(pretty_fn, value, ctx, trailing_comment=None):
         return _pretty_recursion(value)
 
     ctx.start_visit(value)
+    try:
+        return _run_pretty_visiting(pretty_fn, value, ctx, trailing_comment)
+    finally:
+        ctx.end_visit(value)
 
+
+def _run_pretty_visiting(pretty_fn, value, ctx, trailing_comment):
     if trailing_comment:
         try:
             doc = pretty_fn(
@@ -402,8 +408,6 @@ def _run_pretty(pretty_fn, value, ctx, trailing_comment=None):
             'an instance of str or Doc. {} returned '
             '{} instead.'.format(fnname, repr(doc))
         )
-
-    ctx.end_visit(value)
 
     return doc
 
